@@ -500,13 +500,20 @@ func (idx *KVIndex) FieldTermNumberMax(field string) float64 {
 //FieldTermNumberRange gets all number term counts between min and max
 func (idx *KVIndex) FieldTermNumberRange(field string, min, max float64) chan KVTermCount {
 
-	minBytes, _ := GetTermBytes(min)
-	maxBytes, _ := GetTermBytes(max)
 	out := make(chan KVTermCount, 100)
-	defer close(out)
 	if min > max {
+		close(out)
 		return out
 	}
+	//fill the channel from a goroutine: the caller only gets it once this function returns
+	go idx.fieldTermNumberRange(field, min, max, out)
+	return out
+}
+
+func (idx *KVIndex) fieldTermNumberRange(field string, min, max float64, out chan KVTermCount) {
+	defer close(out)
+	minBytes, _ := GetTermBytes(min)
+	maxBytes, _ := GetTermBytes(max)
 
 	if min < 0 {
 		//the keys of the negative numbers come after the positive ones, the lowest number
@@ -571,6 +578,4 @@ func (idx *KVIndex) FieldTermNumberRange(field string, min, max float64) chan KV
 			return nil
 		})
 	}
-
-	return out
 }
